@@ -262,6 +262,15 @@ func runMint(t *testing.T, seed int64, n int, dir string) {
 		}
 		o.Count("class.provisions." + pclass)
 		mk.SetMinter(ctx, minttypes.NewMinter(decRaw(prov)))
+		// params.GenesisEpochProvisions, the value InitGenesis puts back into the minter (C19): the history's initial provisions (a chain
+		// that started from this genesis: an import then differs only after a reduction) or, one history in three, an unrelated value
+		g0 := new(big.Int).Set(prov)
+		if r.Intn(3) == 0 {
+			g0 = new(big.Int).Mul(big.NewInt(int64(1+r.Intn(9000000))), e18)
+			o.Count("class.genesis-provisions.unrelated")
+		}
+		params.GenesisEpochProvisions = decRaw(g0)
+		mk.SetParams(ctx, params)
 		devAcc := ak.GetModuleAddress(minttypes.DeveloperVestingModuleAcctName)
 		vest := bk.GetBalance(ctx, devAcc, denom).Amount
 		if r.Intn(6) == 0 { // drain most of the vesting account: insufficient-balance path
@@ -646,6 +655,51 @@ func runMint(t *testing.T, seed int64, n int, dir string) {
 				distrOp([]string{"", "remove-one", "remove-all", "reweight"}[x])
 			}
 			epochsDone++
+			if r.Intn(10) == 0 {
+				// C19: the REAL x/mint ExportGenesis -> JSON -> every key of the mint store deleted -> the REAL InitGenesis; the epochs go on
+				cdc := h.App.AppCodec()
+				cctx, write := ctx.CacheContext()
+				okI := catch(func() {
+					bz := cdc.MustMarshalJSON(mk.ExportGenesis(cctx))
+					store := cctx.KVStore(h.App.GetKey(minttypes.StoreKey))
+					var keys [][]byte
+					it := store.Iterator(nil, nil)
+					for ; it.Valid(); it.Next() {
+						keys = append(keys, append([]byte{}, it.Key()...))
+					}
+					it.Close()
+					for _, key := range keys {
+						store.Delete(key)
+					}
+					var gs minttypes.GenesisState
+					cdc.MustUnmarshalJSON(bz, &gs)
+					mk.InitGenesis(cctx, &gs)
+				})
+				line := fmt.Sprintf("mint exportimport %s", g0)
+				if !okI {
+					o.Emit(line, "panic", true)
+					o.Fail("export-import:mint:panics", line)
+				} else {
+					write()
+					after := mk.ExportGenesis(ctx)
+					impProv := after.Minter.EpochProvisions.BigInt()
+					o.Emit(line, fmt.Sprintf("ok prov=%s last=%d", impProv, after.ReductionStartedEpoch), true)
+					o.Count("exportimport")
+					if after.ReductionStartedEpoch != lastReduction {
+						o.Fail("export-import:mint:last-reduction-epoch", fmt.Sprintf("%d -> %d", lastReduction, after.ReductionStartedEpoch))
+					}
+					if !after.Params.GenesisEpochProvisions.Equal(params.GenesisEpochProvisions) || after.Params.ReductionPeriodInEpochs != period ||
+						!after.Params.ReductionFactor.Equal(params.ReductionFactor) || after.Params.MintingRewardsDistributionStartEpoch != start {
+						o.Fail("export-import:mint:params", line)
+					}
+					if impProv.Cmp(provNow) != 0 {
+						// InitGenesis overwrites the minter's provisions with params.GenesisEpochProvisions (F31)
+						twLoss(o, "export-import:module-state:mint:.minter.epoch_provisions",
+							fmt.Sprintf("epoch provisions %s before ExportGenesis, %s after InitGenesis (= params.GenesisEpochProvisions %s); last reduction epoch %d", provNow, impProv, g0, lastReduction))
+						provNow = impProv
+					}
+				}
+			}
 			before := map[string]*big.Int{"mint": bal(ctx, mintAcc), "fee": bal(ctx, feeColl), "pool": bal(ctx, poolInc), "distr": bal(ctx, distrAcc), "vest": bal(ctx, devAcc), "inc": bal(ctx, incAcc)}
 			var rb []*big.Int
 			for _, a := range recvAddrs {
